@@ -276,6 +276,9 @@ def run(ctx: Ctx) -> None:
     from . import c02 as _c02
     run_shared(ctx, _c02.run, {"R2.5": ("R1.11", "every keyword of the lexer is one the parser knows (or a reasoned expression / unsupported-specifier keyword): an identifier is not turned into a token no declaration form accepts")})
 
+    # ---------------------------------------------------------------- R1.13
+    check_specifier_arms(ctx, "R1.13", pm)
+
     # ---------------------------------------------------------------- R1.12
     # "with the same ... types": a template argument that is a type-id is reported as a type, not as raw tokens.  Which
     # arguments get the trial parse as a type is C02's R2.2 (the guard evaluated for every first token of a type-id, the
@@ -552,3 +555,21 @@ def _namespace_walk(ctx: Ctx, rid: str) -> None:
     from ..report import SubCtx, run_shared
 
     run_shared(ctx, c12.run, {"R12.4": (rid, ""), "R12.5": (rid, "")})
+
+
+def check_specifier_arms(ctx: Ctx, rid: str, pm: ParserModel) -> None:
+    """"with the same ... specifiers": the specifier loop of _parse_type fetches the next token after every arm of its
+    chain of token-type tests.  An arm that does nothing (`pass`) consumes a specifier without a trace: it is neither
+    reported nor can `validate` reject it where it is not allowed.  (Shared with C06 as R6.11.)"""
+    mod = pm.mod
+    ctx.rule(rid, "every specifier token the type parser's loop consumes leaves a trace (flag, modifier entry, consumed attribute) or ends the loop", minimum=5)
+    ptf = pm.fn("_parse_type")
+    loops_ = [w for w in walk_local(ptf) if isinstance(w, ast.While)]
+    for w in loops_:
+        chain = next((st for st in w.body if isinstance(st, ast.If) and any(isinstance(x, ast.Name) and "tok" in x.id for x in ast.walk(st.test))), None)
+        while chain is not None:
+            eff = [x for b_ in chain.body for x in ast.walk(b_) if isinstance(x, (ast.Assign, ast.AugAssign, ast.AnnAssign, ast.Call, ast.Raise, ast.Break, ast.Return, ast.Continue))]
+            ctx.ob(rid, f"parser:CxxParser._parse_type|arm `{short(chain.test, 50)}`", bool(eff),
+                   msg=f"the tokens matched by `{short(chain.test, 60)}` are consumed by the specifier loop and nothing is recorded or checked for them: the specifier vanishes from the result, and `validate` cannot reject it where it is not allowed", node=chain, mod=mod, nontrivial=False)
+            nxt = chain.orelse
+            chain = nxt[0] if len(nxt) == 1 and isinstance(nxt[0], ast.If) else None
